@@ -36,27 +36,45 @@ def _ev(node, attrs, names, depth=0):
     raise TieError("state.py: file name is not a string constant: " + ast.dump(node)[:120])
 
 
+def _calls(fn, pred):
+    return [n for n in ast.walk(fn) if isinstance(n, ast.Call) and pred(n)]
+
+
+def _is_replace(n):
+    f = n.func
+    return len(n.args) == 2 and ((isinstance(f, ast.Name) and f.id == "replacePath") or
+                                 (isinstance(f, ast.Attribute) and f.attr in ("replace", "rename")))
+
+
 def read_consts():
+    """file names are found by their use, not by the names of locals/attributes:
+    lock   = path given to os.open in __init__
+    new, pickle = arguments of the replace call in __commit
+    dirty  = path opened for writing in __save (and source of its replace call)"""
     t = parse("pym/bob/state.py")
     cls = find_def(t, "_BobState")
     init = find_def(t, "_BobState.__init__")
     save = find_def(t, "_BobState.__save")
     commit = find_def(t, "_BobState.__commit")
     attrs, names = _self_attr_assigns(init)
-    for a in ("__path", "__uncommittedPath"):
-        if a not in attrs:
-            raise TieError("_BobState.__init__ no longer assigns self.%s" % a)
-    if "lockFile" not in names:
-        raise TieError("_BobState.__init__ no longer has a local lockFile")
     _, snames = _self_attr_assigns(save)
-    if "dirtyPath" not in snames:
-        raise TieError("_BobState.__save no longer has a local dirtyPath")
-    out = {
-        "pickle": _ev(attrs["__path"], attrs, names),
-        "new": _ev(attrs["__uncommittedPath"], attrs, names),
-        "dirty": _ev(snames["dirtyPath"], attrs, snames),
-        "lock": _ev(names["lockFile"], attrs, names),
-    }
+    _, cnames = _self_attr_assigns(commit)
+    c = _calls(init, lambda n: isinstance(n.func, ast.Attribute) and n.func.attr == "open"
+               and isinstance(n.func.value, ast.Name) and n.func.value.id == "os" and n.args)
+    if len(c) != 1:
+        raise TieError("_BobState.__init__: expected exactly one os.open call (the lock file), got %d" % len(c))
+    lock = _ev(c[0].args[0], attrs, names)
+    c = _calls(commit, _is_replace)
+    if len(c) != 1:
+        raise TieError("_BobState.__commit: expected exactly one replace call, got %d" % len(c))
+    new = _ev(c[0].args[0], attrs, cnames)
+    pick = _ev(c[0].args[1], attrs, cnames)
+    c = _calls(save, lambda n: isinstance(n.func, ast.Name) and n.func.id == "open" and len(n.args) >= 2
+               and isinstance(n.args[1], ast.Constant) and "w" in str(n.args[1].value))
+    if len(c) != 1:
+        raise TieError("_BobState.__save: expected exactly one open(..., 'wb') call, got %d" % len(c))
+    dirty = _ev(c[0].args[0], attrs, snames)
+    out = {"pickle": pick, "new": new, "dirty": dirty, "lock": lock}
     if len(set(out.values())) != 4:
         raise TieError("state file names are not pairwise distinct: %r" % out)
     vers = {}
